@@ -158,6 +158,7 @@ F = [
     ("```{note}\n:name: | # c\n```\n", False), ("```{note}\n---\nname: > # c", False), ("[a](inv://[x) <inv://[x> [b](inv:k:std:label#%zz) [c](http://[x)\n", False),
     ("```{line-block}\n\n   \nx\n```\n", False), ("```{line-block}\na\n  b\nc\n    d\n e\n```\n", False), ("---\n? !!binary aGVsbG8=\n: x\n2: y\n---\n", False),
     ("# H {norole}`x` [l](#nope) ![a](b){w=1x}\n\n## H {norole}`x`\n", True), ("<img src=\"a.png\" name=\"foo\">\n<img alt=\"x\">\n\n[link](#foo)\n", False),
+    ("(dup)=\n\n{#dup}\n# Only title\n\ntext\n", True), ("{#t1}\n# Only title\n\n{#t1}\npara\n", True), ("<img src alt=\"v\"> <img src>\n\n<img src>\n", False),
     ("```{include} self.md\n```\n", True), ("```{include} m1.md\n```\n", True), ("```{include} " + "n" * 300 + ".md\n```\n", True), ("```{include} a\x00b.md\n```\n", True),
 ]
 
@@ -449,6 +450,7 @@ MODES = [
     {"myst_dmath_double_inline": True, "myst_dmath_allow_labels": False, "myst_dmath_allow_space": False, "myst_dmath_allow_digits": False, "myst_enable_checkboxes": True},
     {"myst_highlight_code_blocks": False, "myst_number_code_blocks": ["py"], "myst_fence_as_directive": ["py", "mermaid", "note"]},
     {"myst_disable_syntax": ["emphasis", "link", "table", "list"]}, {"myst_suppress_warnings": ["myst"]},
+    {"doctitle_xform": True, "sectsubtitle_xform": True},  # docutils' own defaults: a lone top-level section is promoted to the document title
 ]
 
 
